@@ -608,4 +608,41 @@ example : ((ConcX.run wCreateGet.initX schedTwo).th 1).outs = [.obj 7 2] ∧
     (ConcX.run wCreateGet.initX schedTwo).g.sh.cache = [(1, 0), (7, 1)] ∧
     (ConcX.run wCreateGet.initX schedTwo).g.sh.owner = none := by decide
 
+/-! ## several classes on one connection
+
+A connection holds one `CacheSet`; its `caches` dict maps each class NAME to that class' own `CacheFactory` (own
+dicts, own lock, own counters), so the classes share nothing.  The model of a connection with two classes is
+therefore the product of two copies of `Conc`, an event being a class and a thread of that class; what each class
+sees is its own part of the schedule — this is the projection the harness applies to every run on several classes
+(and an implementation in which two classes can end up sharing one factory fails it). -/
+
+/-- an event of a connection with two classes: `(false, t)` = thread `t` of class 0 acts, `(true, t)` = of class 1 -/
+def run2 : State × State → List (Bool × Tid) → State × State
+  | p, [] => p
+  | (a, b), (false, t) :: es => run2 (run a [t], b) es
+  | (a, b), (true, t) :: es => run2 (a, run b [t]) es
+
+theorem C09_run_append (s : State) (x y : List Tid) : run s (x ++ y) = run (run s x) y := by
+  induction x generalizing s with
+  | nil => rfl
+  | cons t ts ih =>
+    simp only [List.cons_append, run]
+    split <;> exact ih _
+
+/-- every class of the connection runs exactly its own part of the schedule: all theorems above hold per class -/
+theorem C09_classes_independent (a b : State) (es : List (Bool × Tid)) :
+    run2 (a, b) es = (run a ((es.filter fun e => !e.1).map Prod.snd), run b ((es.filter fun e => e.1).map Prod.snd)) := by
+  induction es generalizing a b with
+  | nil => rfl
+  | cons e es ih =>
+    obtain ⟨c, t⟩ := e
+    cases c
+    · simp only [run2, ih, List.filter_cons, Bool.not_false, if_true, List.map_cons, Bool.false_eq_true, if_false]
+      rw [show t :: List.map Prod.snd (List.filter (fun e => !e.1) es) = [t] ++ List.map Prod.snd (List.filter (fun e => !e.1) es)
+        from rfl, C09_run_append]
+    · simp only [run2, ih, List.filter_cons, Bool.not_true, Bool.false_eq_true, if_false, if_true, List.map_cons]
+      rw [show t :: List.map Prod.snd (List.filter (fun e => e.1) es) = [t] ++ List.map Prod.snd (List.filter (fun e => e.1) es)
+        from rfl, C09_run_append]
+
+
 end SqlObjVerif.Conc
